@@ -1119,14 +1119,21 @@ theorem wfL : SongWF songL := by
   exact ⟨by decide, by decide, by decide⟩
 
 theorem loopOK_L : LoopOK songL mL bmL := by
-  refine ⟨by decide, by decide, by decide, ⟨5, by rfl⟩, ?_⟩
-  intro src hsrc
-  have : src = [n 1, n 1, n 1, n 1, n 1, n 1] := by
-    have h : songL.track? 0 = some [n 1, n 1, n 1, n 1, n 1, n 1] := rfl
-    rw [show bmL.trackId = 0 from rfl, h] at hsrc
-    exact (Option.some.inj hsrc).symm
-  subst this
-  decide
+  refine ⟨by decide, by decide, by decide, ⟨5, by rfl⟩, ?_, ?_⟩
+  · intro src hsrc
+    have : src = [n 1, n 1, n 1, n 1, n 1, n 1] := by
+      have h : songL.track? 0 = some [n 1, n 1, n 1, n 1, n 1, n 1] := rfl
+      rw [show bmL.trackId = 0 from rfl, h] at hsrc
+      exact (Option.some.inj hsrc).symm
+    subst this
+    decide
+  · -- the period is the one event at index 0: stack usage 0 + base 0 < 6
+    intro i _ h2
+    have : i = 0 := by
+      have : bmL.loopPosition = 1 := rfl
+      omega
+    subst this
+    exact ⟨0, by decide, by decide⟩
 
 example : ∃ S', applyMatch songL mL bmL 15000 = .ok (S', mL, 15000) ∧ StepN songL S' := by
   obtain ⟨S', h1, h2, _⟩ := applyMatch_loop_is_step (subId := 15000) loopOK_L (by decide)
@@ -1284,14 +1291,20 @@ theorem loopOK_C : LoopOK songC mC bmC := by
     cases hx : findMatchLength songC mC 0 0 0 1 true with
     | error e => rw [hx] at h; simp [okv] at h
     | ok v => rw [hx] at h; simp only [okv, Option.some.injEq] at h; rw [h]
-  refine ⟨by decide, by decide, by decide, ⟨299, hf⟩, ?_⟩
-  intro src hsrc
-  have : src = List.replicate 300 (n 1) := by
-    have h : songC.track? 0 = some (List.replicate 300 (n 1)) := rfl
-    rw [show bmC.trackId = 0 from rfl, h] at hsrc
-    exact (Option.some.inj hsrc).symm
-  subst this
-  decide +kernel
+  refine ⟨by decide, by decide, by decide, ⟨299, hf⟩, ?_, ?_⟩
+  · intro src hsrc
+    have : src = List.replicate 300 (n 1) := by
+      have h : songC.track? 0 = some (List.replicate 300 (n 1)) := rfl
+      rw [show bmC.trackId = 0 from rfl, h] at hsrc
+      exact (Option.some.inj hsrc).symm
+    subst this
+    decide +kernel
+  · intro i _ h2
+    have : i = 0 := by
+      have : bmC.loopPosition = 1 := rfl
+      omega
+    subst this
+    exact ⟨0, by decide +kernel, by decide⟩
 
 /-- `C01_fold_count_le_255` on that match: the inserted count is 255 -/
 example : ∃ (c : Nat) (t' : List Event), c = 255 ∧
